@@ -98,7 +98,28 @@ const (
 	EDBNotExist    = "database does not exist"
 	ENoDB          = "please select a database"
 	EFieldNotFound = "field not found"
+	EOpenFiles     = "too many open files"
+	EColRepeated   = "more than once"
 )
+
+func dupName(names []string) bool {
+	seen := map[string]bool{}
+	for _, n := range names {
+		if seen[n] {
+			return true
+		}
+		seen[n] = true
+	}
+	return false
+}
+
+func colNamesOf(cols []Col) []string {
+	out := make([]string, len(cols))
+	for i, c := range cols {
+		out[i] = c.Name
+	}
+	return out
+}
 
 // MaxRowBytes is the row size limit the properties state (C08).
 const MaxRowBytes = 400
@@ -189,6 +210,14 @@ type Expect struct {
 	Rows []*MRow
 	// Unchecked: the model has no opinion on the outcome (rawsql)
 	Unchecked bool
+	// Vague: the model has no opinion on this UPDATE / DELETE (its WHERE orders
+	// a NULL against a number: an error in the engine as it is, not in one
+	// that stops evaluating an AND early); handled like a raw statement -
+	// refused: nothing may change, accepted: the observed contents are adopted
+	Vague bool
+	// Either: refusal and success are both right (the statement changes
+	// nothing either way); contents are still compared
+	Either bool
 }
 
 func (e *Expect) Apply(m *Model) {
@@ -249,6 +278,29 @@ func (t *MTable) match(w *Cond, r *MRow) bool {
 	return res
 }
 
+// condVague: some row holds a non-integer (NULL) in a column that the
+// condition compares with < <= > >=.
+func condVague(t *MTable, w *Cond) bool {
+	if w == nil {
+		return false
+	}
+	for _, c := range w.Cmps {
+		if c.Op == "=" || c.Op == "!=" {
+			continue
+		}
+		idx := t.ColIdx(c.Col)
+		if idx < 0 {
+			continue
+		}
+		for _, r := range t.Rows {
+			if r.Vals[idx].K != "i" {
+				return true
+			}
+		}
+	}
+	return false
+}
+
 func condColsKnown(t *MTable, w *Cond) bool {
 	if w == nil {
 		return true
@@ -290,6 +342,10 @@ func (m *Model) Predict(s *Stmt) *Expect {
 		if _, ok := m.DBs[name]; !ok {
 			return fail(EDBNotExist)
 		}
+		if s.OpenFail != "" && name != m.Cur {
+			// the open of the data or log file fails: an error, the selection stays
+			return fail(EOpenFiles)
+		}
 		return &Expect{OK: true, FailAt: -1, apply: func(m *Model, n int) { m.Cur = name }}
 	case KShowDB, KRestart:
 		return &Expect{OK: true, FailAt: -1}
@@ -311,6 +367,11 @@ func (m *Model) Predict(s *Stmt) *Expect {
 		// field_name, field_type, field_length) row per column
 		if 1+4+len(s.Table)+1+8 > MaxRowBytes {
 			return fail(ERowTooLarge)
+		}
+		// a row is a map from column name to value: a table with a column named
+		// twice cannot hold two values there (C08) - such a definition is refused
+		if dupName(colNamesOf(s.Cols)) {
+			return fail(EColRepeated)
 		}
 		for _, c := range s.Cols {
 			if 1+4+len(s.Table)+1+4+len(c.Name)+1+4+1+4 > MaxRowBytes {
@@ -343,6 +404,17 @@ func (m *Model) Predict(s *Stmt) *Expect {
 			for _, c := range t.Cols {
 				names = append(names, c.Name)
 			}
+		}
+		// every named column must exist (exact spelling) and be named once: a
+		// value given for an unknown or a repeated name would be accepted and
+		// never returned (C08)
+		for _, nm := range names {
+			if t.ColIdx(nm) < 0 {
+				return fail(EFieldNotFound)
+			}
+		}
+		if dupName(names) {
+			return fail(EColRepeated)
 		}
 		var full [][]Val
 		tname0 := s.Table
@@ -403,6 +475,33 @@ func (m *Model) Predict(s *Stmt) *Expect {
 		if !condColsKnown(t, s.Where) {
 			return fail(EFieldNotFound)
 		}
+		if condVague(t, s.Where) {
+			return &Expect{Vague: true, Unchecked: true, FailAt: -1}
+		}
+		// a SET list naming an unknown column or one column twice: the value
+		// could not be stored, so the statement is refused (C08) - unless no
+		// row matches, in which case no value is lost and both outcomes are right
+		var setNames []string
+		badSet := ""
+		for _, si := range s.Set {
+			if t.ColIdx(si.Col) < 0 {
+				badSet = EFieldNotFound
+			}
+			setNames = append(setNames, si.Col)
+		}
+		if badSet == "" && dupName(setNames) {
+			badSet = EColRepeated
+		}
+		if badSet != "" {
+			for _, r := range t.Rows {
+				if t.match(s.Where, r) {
+					return fail(badSet)
+				}
+			}
+			e := fail(badSet)
+			e.Either = true
+			return e
+		}
 		type upd struct {
 			pos  int
 			vals []Val
@@ -454,6 +553,9 @@ func (m *Model) Predict(s *Stmt) *Expect {
 		}
 		if !condColsKnown(t, s.Where) {
 			return fail(EFieldNotFound)
+		}
+		if condVague(t, s.Where) {
+			return &Expect{Vague: true, Unchecked: true, FailAt: -1}
 		}
 		var dels []int
 		for pos, r := range t.Rows {
